@@ -131,13 +131,12 @@ def check_purity(ctx, cases, b, only=None):
         if not (set(bad.violated) & {"Pure", "TableSound"}):
             raise vlib.Infra("vacuity: the unguarded table model does not violate Pure (%s)" % bad.errors[:2])
     racebin = ctx.go_build("special", race=True)
-    src = cases
-    if only is not None:
-        src = ctx.path("pure-only.ndjson")
-        with open(cases) as f, open(src, "w") as g:
-            for ln in f:
-                if '"kind":"pure"' in ln and ('"fam":"%s"' % only) in ln:
-                    g.write(ln)
+    # the children re-read the family list: hand them the pure lines only (the thorough case file has 400 MB)
+    src = ctx.path("pure-only.ndjson")
+    with open(cases) as f, open(src, "w") as g:
+        for ln in f:
+            if '"kind":"pure"' in ln and (only is None or ('"fam":"%s"' % only) in ln):
+                g.write(ln)
     results = ctx.path("special-pure.ndjson")
     ctx.run([racebin, "pure", src, results, str(b["pure_runs"]), str(b["goroutines"])], timeout=3000)
     summ, fams = None, []
